@@ -39,7 +39,10 @@ class Ctx:
         self.functions: set = set()
         self.notes: List[str] = []
         self.rules_run: List[str] = []
-        self.extra: Dict[str, Any] = {}
+        self.extra: Dict[str, Any] = {"front_end": {
+            "canonicalisation": "negated comparisons, boolean temporaries, else-after-exit, disjunctive guard clauses (nucsverif/canon.py)",
+            "inlined_new_helpers": list(getattr(prog, "inlined_helpers", [])),
+            "inlining_rule": "functions / methods whose names the reference tree does not have are inlined at their call sites before the rules run (nucsverif/inline.py); identity on the reference tree"}}
         self.out_of_scope: List[Dict[str, str]] = []
         self.analysis_errors: List[str] = []  # rules that could not read the code (exit 2 unless another rule reports a definite violation)
 
